@@ -12,6 +12,7 @@ pub mod c14;
 pub mod c15;
 pub mod c16;
 pub mod c17;
+pub mod e2props;
 
 pub fn replay_value(path: &str) -> serde_json::Value {
     let s = std::fs::read_to_string(path).unwrap_or_else(|e| {
@@ -65,6 +66,11 @@ pub fn dispatch(prop: &str, tier: Tier, replay: Option<String>) -> i32 {
         "C02" => c02::run(tier, replay),
         "C03" => c03::run(tier, replay),
         "C04" => c04::run(tier, replay),
+        "C05" => e2props::c05(tier, replay),
+        "C06" => e2props::c06(tier, replay),
+        "C07" => e2props::c07(tier, replay),
+        "C09" => e2props::c09(tier, replay),
+        "C19" => e2props::c19(tier, replay),
         "C10" => c10::run(tier, replay),
         "C11" => c11::run(tier, replay),
         "C12" => c12::run(tier, replay),
